@@ -11,6 +11,7 @@ import (
 
 	"github.com/go-jose/go-jose/v3"
 	"github.com/ory/fosite"
+	"github.com/ory/fosite/handler/openid"
 	"pgregory.net/rapid"
 
 	"verifharness/h"
@@ -82,7 +83,20 @@ func TestC14_IDTokens(t *testing.T) {
 			ss.presetAud = []string{"another-client", "https://rs.example"}
 		}
 		rat := h.Now().UTC().Truncate(time.Second)
-		mkSess := func() *h.Sess {
+		// the integrator's session type: the harness' own, or fosite's openid.DefaultSession (whose Clone is the library's)
+		libSession := rapid.Bool().Draw(rt, "fositeSessionType")
+		var mkSess func() *h.Sess
+		mkSession := func() fosite.Session {
+			s := mkSess()
+			if libSession {
+				return &openid.DefaultSession{Claims: s.Claims, Headers: s.Headers, Subject: s.Subject}
+			}
+			return s
+		}
+		if libSession {
+			h.Label("session=openid.DefaultSession")
+		}
+		mkSess = func() *h.Sess {
 			s := h.NewSess(ss.subject)
 			s.Claims.RequestedAt = rat
 			switch ss.authRel {
@@ -288,8 +302,8 @@ func TestC14_IDTokens(t *testing.T) {
 			if openidGranted {
 				scopes = append(scopes, "openid")
 			}
-			w.DeviceDecide(dr.UserCode, true, h.Consent{Session: mkSess(), Scopes: scopes})
-			tr := w.Token(url.Values{"grant_type": {deviceGrant}, "device_code": {dr.DeviceCode}}, w.BasicFor("c14"), h.TokenOpts{Session: mkSess()})
+			w.DeviceDecide(dr.UserCode, true, h.Consent{Session: mkSession(), Scopes: scopes})
+			tr := w.Token(url.Values{"grant_type": {deviceGrant}, "device_code": {dr.DeviceCode}}, w.BasicFor("c14"), h.TokenOpts{Session: mkSession()})
 			logf("device poll -> %v id_token=%v", tr.Err, tr.IDToken != "")
 			if tr.IDToken != "" {
 				checkIDToken("device token response", tr.IDToken, tr.Access, "", false)
@@ -313,7 +327,7 @@ func TestC14_IDTokens(t *testing.T) {
 			if openidGranted {
 				scopes = append(scopes, "openid")
 			}
-			ar := w.Authorize(q, h.Consent{Session: mkSess(), Scopes: scopes})
+			ar := w.Authorize(q, h.Consent{Session: mkSession(), Scopes: scopes})
 			logf("authorize -> %v mode=%s code=%v access=%v id_token=%v", ar.Err, ar.Mode, ar.Code != "", ar.Access != "", ar.IDToken != "")
 			if ar.IDToken != "" {
 				checkIDToken("authorization response", ar.IDToken, ar.Access, ar.Code, false)
